@@ -491,6 +491,9 @@ fn wellformed(case: &BytesCase, obs: &mut Obs) -> PropResult {
 	if let Some(table) = crate::classfile::gen::inflate_table(&mut model, case.big) {
 		obs.label(format!("table_with_300_entries:{table}"));
 	}
+	if let Some(n) = crate::classfile::gen::add_long_string(&mut model, case.big) {
+		obs.label(if n > 32767 { "utf8_constant>32767_bytes" } else { "utf8_constant=32767_bytes" });
+	}
 	let mut ch = case.ch.clone();
 	if case.strip_wide {
 		strip_wide_consts(&mut model);
@@ -840,6 +843,9 @@ fn cross_read(case: &BytesCase, obs: &mut Obs) -> PropResult {
 	}
 	if let Some(table) = crate::classfile::gen::inflate_table(&mut model, case.big) {
 		obs.label(format!("table_with_300_entries:{table}"));
+	}
+	if let Some(n) = crate::classfile::gen::add_long_string(&mut model, case.big) {
+		obs.label(if n > 32767 { "utf8_constant>32767_bytes" } else { "utf8_constant=32767_bytes" });
 	}
 	let mut ch = case.ch.clone();
 	if case.strip_wide {
